@@ -200,7 +200,7 @@ class Num(Atomic):
                 w = max(self.width, 1)
                 while not (self.n < 10 ** w):
                     w += 1
-                    if w > self.width + 6:
+                    if w > self.width + 20:
                         raise Unsupported('numeral far wider than its field')
                 self._len = w
         return self._len
